@@ -257,7 +257,10 @@ func observeFour(seq *obiseq.BioSequence, reuse bool) (o fourObs) {
 		buf := make([]byte, 7, 16)
 		var stale obikmer.Table4mer
 		for i := range stale {
-			stale[i] = uint16(i + 1)
+			stale[i] = 1 // stale non-zero content, written without naming the element type of the table
+			for k := 0; k < i%7; k++ {
+				stale[i]++
+			}
 		}
 		t = obikmer.Count4Mer(seq, &buf, &stale)
 	} else {
@@ -1101,6 +1104,14 @@ func recordFour(env *Env, rng *rand.Rand, i, maxlen int) {
 	case i < 7:
 		sc = "tiny"
 		s = randPlain(rng, i) // lengths 0..6: shorter than, equal to, just longer than 4
+	case i == 7 || i == 8:
+		// one 4-mer occurring more often than a small counter can hold (homopolymer / microsatellite of 260-340 bases)
+		sc = "counter-width"
+		unit := randPlain(rng, 1+(i-7))
+		for len(s) < 262+rng.Intn(80) {
+			s = append(s, unit...)
+		}
+		s = append(randPlain(rng, rng.Intn(6)), s...)
 	case i%5 == 0:
 		sc = "repeats"
 		unit := randPlain(rng, 1+rng.Intn(5))
